@@ -5,6 +5,7 @@ package main
 import (
 	"bufio"
 	"bytes"
+	"crypto/ed25519"
 	"encoding/binary"
 	"encoding/hex"
 	"fmt"
@@ -611,11 +612,15 @@ func c09build(kind string, arg []byte) ([]byte, error) {
 		return vmutil.CallContractProgram(arg)
 	case "coinbase":
 		return vmutil.DefaultCoinbaseProgram()
+	case "p2pkhsig":
+		return vmutil.P2PKHSigProgram(arg)
+	case "p2sh":
+		return vmutil.P2SHProgram(arg)
 	}
 	panic("kind " + kind)
 }
 
-var c09kinds = []string{"p2wpkh", "p2wsh", "retire", "register", "call", "coinbase"}
+var c09kinds = []string{"p2wpkh", "p2wsh", "retire", "register", "call", "coinbase", "p2pkhsig", "p2sh"}
 
 // builders oracle: each recogniser accepts its builder's output exactly under the documented
 // condition on the argument
@@ -655,6 +660,16 @@ func (h *c09) checkBuilder(kind string, arg, p []byte) (c09rec, bool) {
 		exp("IsStraightforward", r.straight, len(arg) == 0)
 	case "coinbase":
 		exp("IsStraightforward", r.straight, true)
+	case "p2pkhsig", "p2sh":
+		// the segwit conversion of the witness program is this builder on the same hash
+		w, _ := vmutil.P2WPKHProgram(arg)
+		conv := segwit.ConvertP2PKHSigProgram
+		if kind == "p2sh" {
+			conv = segwit.ConvertP2SHProgram
+		}
+		if c, err := conv(w); err != nil || !bytes.Equal(c, p) {
+			h.fail(sig, "Convert(P2W program of h) differs from the direct builder on h")
+		}
 	}
 	h.c.Count("build/" + kind)
 	return r, true
@@ -692,6 +707,53 @@ func (h *c09) opBuildN(kind string, n int, b byte) {
 		return
 	}
 	h.emit(op, c09digest(p)+" "+r.flags()+" contract="+c09extract(func() ([]byte, error) { return bcrp.ParseContract(p) }, true))
+}
+
+func c09keys(ks []byte) []ed25519.PublicKey {
+	var out []ed25519.PublicKey
+	for len(ks) > 0 {
+		n := 32
+		if len(ks) < n {
+			n = len(ks)
+		}
+		out = append(out, ed25519.PublicKey(ks[:n]))
+		ks = ks[n:]
+	}
+	return out
+}
+
+func (h *c09) opMultisig(m int, height int64, ks []byte) {
+	op := fmt.Sprintf("multisig %d %s", m, hx(ks))
+	f := func() ([]byte, error) { return vmutil.P2SPMultiSigProgram(c09keys(ks), m) }
+	if height >= 0 {
+		op = fmt.Sprintf("multisigh %d %d %s", m, height, hx(ks))
+		f = func() ([]byte, error) { return vmutil.P2SPMultiSigProgramWithHeight(c09keys(ks), m, uint64(height)) }
+	}
+	res := c09extract(f, false)
+	h.emit(op, res)
+	h.c.Count("multisig/" + strings.SplitN(res, ":", 2)[0])
+	if strings.HasPrefix(res, "ok:") {
+		p, _ := f()
+		insts, err := vm.ParseProgram(p)
+		n := len(c09keys(ks))
+		want := n + 4
+		if height > 0 {
+			want += 4
+		}
+		if err != nil || len(insts) != want {
+			h.fail(fmt.Sprintf("builders:multisig:%d-of-%d", m, n), "multisig program does not parse to TXSIGHASH, n keys, m, n, CHECKMULTISIG")
+		}
+	}
+}
+
+func (h *c09) opConv(kind string, p []byte) {
+	f := segwit.ConvertP2PKHSigProgram
+	if kind == "sh" {
+		f = segwit.ConvertP2SHProgram
+	}
+	res := c09extract(func() ([]byte, error) { return f(p) }, false)
+	h.emit("conv "+kind+" "+hx(p), res)
+	h.c.Count("conv/" + strings.SplitN(res, ":", 2)[0])
 }
 
 func (h *c09) opExh(pre []byte) {
@@ -984,6 +1046,15 @@ func (h *c09) line(l string) {
 		h.opBuildN(w[1], n, unhx(w[3])[0])
 	case "exh":
 		h.opExh(unhx(w[1]))
+	case "multisig":
+		m, _ := strconv.Atoi(w[1])
+		h.opMultisig(m, -1, unhx(w[2]))
+	case "multisigh":
+		m, _ := strconv.Atoi(w[1])
+		ht, _ := strconv.ParseInt(w[2], 10, 64)
+		h.opMultisig(m, ht, unhx(w[3]))
+	case "conv":
+		h.opConv(w[1], unhx(w[2]))
 	}
 }
 
@@ -1055,6 +1126,19 @@ func runC09(c *Ctx) {
 			h.opBuildN(k, n, byte(1+r.Intn(255)))
 		}
 	}
+	// -- standard programs (C02 groundwork): multisig builders and the segwit conversions
+	for n := 0; n <= 7; n++ {
+		for m := -1; m <= n+1; m++ {
+			h.opMultisig(m, -1, h.rbytes(32*n))
+			h.opMultisig(m, int64(r.Intn(3)*r.Intn(100000)), h.rbytes(32*n))
+		}
+	}
+	h.opMultisig(1, -1, h.rbytes(33)) // a 32-byte and a 1-byte "key"
+	h.opMultisig(17, 1<<40, h.rbytes(32*17))
+	for _, p := range [][]byte{nil, {0x00}, {0x51}, {0x00, 0x51}, {0x00, 0x4c}, {0x51, 0x01, 0xaa}, {0x00, 0x00, 0x6a}} {
+		h.opConv("pkh", p)
+		h.opConv("sh", p)
+	}
 	// -- tokens around the Scanner's 64 KiB limit, and a >= 32 KiB push through the disassembler
 	for _, n := range []int{65533, 65534, 65535, 65536, 65537} {
 		q := []byte("'" + strings.Repeat("q", n-2) + "'")
@@ -1115,6 +1199,9 @@ func runC09(c *Ctx) {
 			}
 			h.opRec(p)
 			c.Distinct("rec " + hx(p))
+			if r.Intn(3) == 0 {
+				h.opConv([]string{"pkh", "sh"}[r.Intn(2)], p)
+			}
 		}
 	}
 	for sig, n := range h.reports {
